@@ -48,12 +48,12 @@ claim("C08", "Proof, for all int64/time.Time inputs, of the scalar time codecs a
       "time package model of trusted/stdlib.spec (Unix, UTC, Add exact, Sub saturating, Clock on UTC).", ["the reflect-driven struct walk, lists/maps/structs/decimals/enums/strings", "Arrow builders storing what they are given", "duration decode arm inside setFieldFromArrow (reflect function)"])
 claim("C10", "Proof that parseSemver yields the numeric major/minor of a canonical version (refusing parts that do not fit an int) and that checkProtocolVersion returns nil iff the version is present, canonical and numerically equal in major.minor to the server's; the directional message; panic-freedom of parseSemver; the regex lemma pinning semverRegex to the reference language; and, over every path of the three dispatching functions (serveOne on the pipe, handleUnary and handleStreamInit on HTTP), that the dispatch / parameter binding is reached only after Server.protocolVersionSet was read and, when it was set, checkProtocolVersion admitted the request's own declared version (value and presence of the metadata key); that a refusal answers with the gate's error (HTTP 400); that the __describe__ short-circuits (pipe and HTTP) run before the gate.",
       "semverRegex facts and strconv.Atoi incl. its clamped range-error result are assumed contracts. The flag Server.protocolVersionSet is the value the function itself read (at-load path flag); a concurrent SetProtocolVersion is outside.", ["message text parity with Python beyond the directional sentence", "the error_kind key on the wire (C05's buildErrorExtra contract)"])
-claim("C15", "Proof that checkTokenAge refuses exactly tokens older than the TTL, and call-site obligations that every call-cache insertion (mint path and cache-miss path) is stamped with the authenticated token's own creation time, only after age and call-id checks, and that the cache computes expiry as createdAt+ttl.",
-      "time.Since modelled as one clock reading per call; container/list not modelled.", ["callStateCache.get expiry comparison and LRU eviction (container/list)", "cross-instance interleavings"])
+claim("C15", "Proof that checkTokenAge refuses exactly tokens older than the TTL, and call-site obligations that every call-cache insertion (mint path and cache-miss path) is stamped with the authenticated token's own creation time, only after age and call-id checks, and that the cache computes expiry as createdAt+ttl; proof of the call cache itself (newCallStateCache, get, put): the map/list representation invariant (every map value is a list element holding an entry whose key is its map key, and conversely; object invariant over fields encapsulated in the three functions, checked package-wide) is established and kept, through in-place update, insertion and the eviction loop; neither dynamic-type assertion on a list element can panic; the key is the call id joined with the rendered identity in get and put alike; a hit returns the call stored under exactly that key and only while the entry's expiry has not passed at the clock reading get took; put leaves the given call and expiry under the key; a disabled cache (nil, max <= 0) never hits.",
+      "time.Since / time.Now modelled as one clock reading per call; container/list contracts over its own len/list fields (trusted/containers.spec); sync.Mutex critical sections atomic.", ["which entry the eviction loop removes (container/list is modelled without order: Back returns some element), so 'least recently used' is not claimed", "cross-instance interleavings (each instance's cache is proved on its own; a miss falls back to the token, C12)"])
 claim("C18", "Proof of readHTTPBody's cap selection, exact saturating cap arithmetic (no int64 wraparound), read-at-most-cap+1, refusal type of oversize bodies, identity passthrough, the decoded-cap formula; decompressBounded's output bound and unknown-coding error type; DecodeContentEncoding index safety and termination; writeBodyReadError's 413/415/400 mapping; data flow: the decoder that is read to the end was built over the whole raw body and is never switched out of whole-input mode, and what is returned is what that read produced.",
       "io.LimitReader/io.ReadAll contracts assumed; zstd/gzip decoders are unknown calls.", ["decoded bytes equal what the client encoded (codec correctness)", "streaming-frame window behaviour"])
-claim("C19", "Proof of enforceResponseBudgets' decision table and error kinds, and of checkExternalBudget's pre-flight refusal condition and disabled cases.",
-      "", ["the producer loop's wire-byte cap (runProduceLoop never consults max_response_bytes: reproduced defect, not yet under contract)", "unary/exchange call sites of enforceResponseBudgets"])
+claim("C19", "Proof of enforceResponseBudgets' decision table and error kinds (and that it changes nothing), and of checkExternalBudget's pre-flight refusal condition and disabled cases; proof, over every path of the unary and the exchange dispatcher (handleUnary, handleExchangeCall), that the bytes measured against max_response_bytes are the length of the very buffer that is then sent, that both configured caps are the ones handed to the check, that a body goes out with status 200 only when the check passed (so with a wire cap set the body sent is at most the cap), that an overshoot is answered through the cap-error writer with the check's own error, and that the unary pre-flight refuses exactly a predicted upload above the external cap; the producer loop's soft wire cap is stated as a loop invariant whose step obligation fails (recorded finding).",
+      "bytes.Buffer Len/Bytes are assumed contracts over the buffer's own fields (trusted/stdlib.spec); every writer into the buffer is an unknown call that havocs them.", ["the producer loop's wire-byte cap (runProduceLoop never consults max_response_bytes: reproduced defect, recorded finding)", "that the cap-error replacement body is itself below the cap", "the external byte accounting inside externalizeStreamDataBatch / externalizeBatchCtx beyond their inline case (C30)"])
 claim("C22", "Proof, over every control-flow path of handleUnary, handleStreamInit, handleStreamExchange, handleUploadURLInit and handleIntrospectToken, that every call they make (body read, method lookup, handler, provider, resolver, hook, state method) is reached only after authenticate returned non-nil for this request; handleDescribe requires the same of its caller.",
       "admitted(r) is a ghost predicate whose only source is authenticate's result (establishes clause).", ["the route table itself (that no other registered route reaches sensitive code) is checked by reading initRoutes, not yet by an obligation", "session-delete and page routes are outside by the property's own allow-list"])
 claim("C25", "Proof that VerifyProof computes and compares the MAC and records the nonce only inside the two-sided timestamp window, over exactly this proof's fields and this worker's origin, after the MAC matched; that the nonce cache TTL covers the whole acceptance window (lemma nonceWindowCovered + call-site obligation); that in require mode the inner authenticator is reachable only after a verified proof; proof of the replay cache itself (checkAndAdd): a remembered nonce whose entry has not expired is refused, entries leave only when expired or when the cache is full, the map/list representation invariant (object invariant over fields encapsulated in newNonceCache/checkAndAdd, checked package-wide) is kept; regex lemmas pin the five field grammars to reference languages.",
